@@ -258,12 +258,26 @@ func ZZ_C16_go_call_shapes() {
 		want = 0
 	}
 	zz.DeadlockIsViolation("terminates.C16.go/" + s.name)
-	r, err := Execute(e, nil, "out = make(chan int64)\n"+s.src+"\n<-out")
+	if zz.Choose(2) == 0 {
+		r, err := Execute(e, nil, "out = make(chan int64)\n"+s.src+"\n<-out")
+		zz.Drain()
+		ri, ok := r.(int64)
+		zz.Assert(err == nil && ok, "C16.go-shape/runs-concurrently-and-delivers/"+s.name)
+		if err == nil && ok {
+			zz.Assert(ri == want, "C16.go-shape/exactly-the-supplied-arguments/"+s.name)
+		}
+		return
+	}
+	// the started call keeps its arguments whatever the caller calls next: other
+	// calls of several shapes (with other arguments) run before the goroutine is
+	// read; the goroutine's value must still be the one computed from A, B, C
+	later := "h5 = func(a, b, c, d, g) { return a }\nhv = func(xs...) { return len(xs) }\nh5(9, 8, 7, 6, 5)\nhv(4, 3)\nhv([2, 1]...)\ngosum(side, 11, 12)\n"
+	r, err := Execute(e, nil, "out = make(chan int64)\nside = make(chan int64, 4)\n"+s.src+"\n"+later+"<-out")
 	zz.Drain()
 	ri, ok := r.(int64)
-	zz.Assert(err == nil && ok, "C16.go-shape/runs-concurrently-and-delivers/"+s.name)
+	zz.Assert(err == nil && ok, "C16.go-shape/runs-concurrently-and-delivers/"+s.name+"/then-other-calls")
 	if err == nil && ok {
-		zz.Assert(ri == want, "C16.go-shape/exactly-the-supplied-arguments/"+s.name)
+		zz.Assert(ri == want, "C16.go-shape/exactly-the-supplied-arguments/"+s.name+"/then-other-calls")
 	}
 }
 
